@@ -493,6 +493,28 @@ func (c *Ctx) cod9(which map[string]bool) {
 				}
 			}
 			a.done(2, "every return carries nil or an error the path established")
+			// every name is examined: the scan ends by exhaustion (or an error), never
+			// by leaving the loop from inside an iteration — a `break` where `continue`
+			// is meant stops at the first foreign name and the keys behind it are missed
+			ex := c.acc("COD-10", list, "scan-ends-by-exhaustion-only")
+			for _, p := range c.Paths("COD-10", list) {
+				if p.End != pathx.KReturn || retErr(p, len(p.Events)-1) == triNonNil {
+					continue
+				}
+				inBody := hasCmp(assumed(p, 0, -1), func(k cmp) bool {
+					if k.Op != token.LSS {
+						return false
+					}
+					_, isLen := builtinCall(k.Y, "len")
+					return isLen
+				})
+				if inBody {
+					ex.fail(p, len(p.Events)-1, "List returns its result from inside an iteration of the scan: the names behind this one are never looked at, and their records are missing from the adopted session")
+				} else {
+					ex.pass()
+				}
+			}
+			ex.done(1, "every successful return follows the loop condition found false")
 		}
 	}
 	if which["COD-11"] {
